@@ -33,6 +33,9 @@ structure CrdtOps (σ ω : Type) where
   /-- hook (mirror of `Crdt::admit` in harness/src/machine.rs): `op` is about to be stored under `name` by
   `G`/`GA`/`O`, `ops` = the definitions so far; `none` rejects the definition (`nogen` / `badop`) -/
   admit : List (String × ω) → String → ω → Option ω := fun _ _ op => some op
+  /-- C17 oracle on the two states (independent of `validateMerge`): is some dot the current witness of one member/key
+  in the first state and of a different one in the second? -/
+  sharedDot : Option (σ → σ → Bool) := none
   /-- the dot an op carries, if any (freshness oracle of C07) -/
   opDot : ω → Option String := fun _ => none
   /-- `RRS`: the clock of the type's own read (what "the replica's own full clock" means for `reset_remove`) -/
@@ -186,7 +189,13 @@ def exec (T : CrdtOps σ ω) (m : MState σ ω) (toks : List String) : MState σ
       | some s, some s2 =>
         let sp := if m.taint.getD r false || m.taint.getD r2 false then ""
           else T.vmSpec (m.ops.map (·.2)) (m.knownOps r) (m.knownOps r2)
-        (m, withSpec ("vm=" ++ T.validateMerge s s2) sp)
+        let verdict := T.validateMerge s s2
+        let chk := match T.sharedDot with
+          | some f =>
+            let shared := f s s2
+            if (shared && verdict != "ok") || (!shared && verdict != "dsd") then " vmchk=ok" else " vmchk=FAIL"
+          | none => ""
+        (m, withSpec ("vm=" ++ verdict ++ chk) sp)
       | _, _ => bad
     | _, _ => bad
   | ["VS", rs, name] =>
